@@ -612,6 +612,7 @@ func runC03(c *Ctx, r *Report) {
 	c03Readers(c, r)
 	c03Writers(c, r)
 	c03NoSingletonInCollections(c, r)
+	c03NoArgumentArrayMutation(c, r)
 }
 
 func fxStrings(c *Ctx, fx []textFx) []string {
